@@ -36,8 +36,11 @@
 //!                                      holds the backup that epoch made (other than the view-0 bootstrap one)
 //!   equivocation:*                     over everything key 0 signed in all lives, per epoch: two commit votes for a
 //!                                      view, a commit at or below a timed-out view, views going backwards
-//! Sites prefixed `F12/` belong to the directed scenario `restart at the boundary with a slow schedule provider`
-//! (a finding on the unchanged tree, see known-findings.jsonl).
+//!   slot:late_write_over_votes         `set_state` by an instance of epoch e while a later epoch has a backup other than
+//!                                      its view-0 bootstrap one (the assumption `Benign` of Props/Epoch.lean; the late
+//!                                      write of an old instance over a bootstrap state is tolerated and counted)
+//! The directed case `restart at the boundary with a slow schedule provider` (finding F13, fixed by a8b4c3e: an instance
+//! that finds a later epoch's state in the slot stops) is generated first in every run and is in corpus/Cepoch.
 use std::{
     collections::{BTreeMap, BTreeSet, HashSet, VecDeque},
     sync::{
@@ -242,6 +245,16 @@ impl EngineInterface for Stub {
                 ));
             }
         }
+        // a write below a later epoch that has more than its bootstrap backup
+        {
+            let lb = self.0.last_backup.lock().unwrap();
+            if let Some((x, (v, p))) = lb.iter().find(|(x, b)| **x > e && **b != (0, v2::Phase::Timeout)) {
+                self.0.violations.lock().unwrap().push((
+                    "slot:late_write_over_votes".into(),
+                    format!("set_state(epoch {e}, view {}, {:?}) after epoch {x} made the backup (view {v}, {p:?})", s.view_number.0, s.phase),
+                ));
+            }
+        }
         // the view-0 bootstrap of a (re)started instance: the epoch begins from the default state
         if s.view_number.0 == 0 && s.phase == v2::Phase::Timeout && !self.0.truth.stale(e, next) {
             if let Some((v, p)) = self.0.last_backup.lock().unwrap().get(&e).cloned() {
@@ -299,7 +312,6 @@ struct Keys {
 
 struct Case {
     fam: String,
-    f12: bool,
     truth: Truth,
     stub: Arc<StubInner>,
     life: Option<Life>,
@@ -479,6 +491,33 @@ impl Cepoch {
         json!(v)
     }
 
+    /// The map the schedule task has built must be a chain (theorem `runner_maps_disjoint`): consecutive epochs,
+    /// increasing activations, expiration(e) = activation(e+1) - 1, the last epoch open.
+    fn check_map(&mut self, op: &Value, out: &mut Out) {
+        let mut bad = None;
+        {
+            let c = self.case.as_ref().unwrap();
+            let Some(life) = c.life.as_ref() else { return };
+            let mut prev: Option<(u64, u64, Option<u64>)> = None;
+            for e in 0..16u64 {
+                let Some(l) = life.manager.validator_schedule(validator::EpochNumber(e)) else { continue };
+                let cur = (e, l.activation_block.0, l.expiration_block.map(|x| x.0));
+                if let Some((pe, pa, px)) = prev {
+                    if e != pe + 1 || cur.1 <= pa || px != Some(cur.1 - 1) {
+                        bad = Some(format!("epoch {pe} = [{pa}, {px:?}] is followed by epoch {e} = [{}, {:?}]", cur.1, cur.2));
+                    }
+                }
+                prev = Some(cur);
+            }
+            if let Some((pe, _, Some(x))) = prev {
+                bad = Some(format!("the last epoch {pe} of the map has the expiration {x}"));
+            }
+        }
+        if let Some(b) = bad {
+            self.fail(out, "verify:map_not_a_chain", &format!("the schedule map is not a chain of adjacent ranges: {b}"), op);
+        }
+    }
+
     /// Drains the outbound channels: everything the node signed during the op, per instance.
     fn drain_outbound(&mut self) -> Vec<(u64, validator::Signed<validator::ConsensusMsg>)> {
         let c = self.case.as_mut().unwrap();
@@ -556,7 +595,7 @@ impl Cepoch {
 
     fn fail(&mut self, out: &mut Out, site: &str, what: &str, op: &Value) {
         let c = self.case.as_mut().unwrap();
-        let site = if c.f12 { format!("F12/{site}") } else { site.to_string() };
+        let site = site.to_string();
         if c.reported.insert(site.clone()) {
             let ops = c.ops.clone();
             out.oracle_fail_ops(&site, what, op.clone(), &ops);
@@ -709,12 +748,30 @@ impl Cepoch {
             }
             Mode::Step { replica } => {
                 let mut r = replica.take()?;
+                let clock = life.clock.clone();
+                // the handler is polled with the other tasks in between; if it is stuck (waiting for a block to be
+                // persisted) the view deadline is let pass, after which `on_proposal` gives up
                 let res = self.rt.block_on(async {
-                    catch_async(async { r.handle(&root, msg).await }).await.map(|x| (x, r))
+                    catch_async(async {
+                        let v = {
+                            let fut = r.handle(&root, msg);
+                            tokio::pin!(fut);
+                            let mut v = vharness::sim::run_until_idle(fut.as_mut(), 30).await;
+                            if v.is_none() {
+                                clock.advance(time::Duration::seconds(VIEW_TIMEOUT_S + 1));
+                                v = vharness::sim::run_until_idle(fut.as_mut(), 30).await;
+                            }
+                            v
+                        };
+                        (v, r)
+                    })
+                    .await
                 });
                 match res {
                     Err(site) => Some(format!("panic:{site}")),
-                    Ok((verdict, r)) => {
+                    // still stuck: the replica is abandoned (its handler never returns)
+                    Ok((None, _r)) => Some("blocked".into()),
+                    Ok((Some(verdict), r)) => {
                         let c = self.case.as_mut().unwrap();
                         if let Some(Mode::Step { replica }) = c.life.as_mut().and_then(|l| l.insts.get_mut(&e)).map(|i| &mut i.mode) {
                             *replica = Some(r);
@@ -782,7 +839,6 @@ impl Cepoch {
                 out.count(&format!("case:{fam}"));
                 self.case = Some(Case {
                     fam,
-                    f12: op["f12"].as_bool().unwrap_or(false),
                     truth,
                     stub: stub.clone(),
                     life: None,
@@ -802,6 +858,7 @@ impl Cepoch {
                 }
                 self.quiesce();
                 obs.insert("sched".into(), self.sched_json());
+                self.check_map(op, out);
                 obs.insert("asked".into(), json!(stub.pending_calls.load(Ordering::SeqCst)));
                 obs.insert("next".into(), json!(stub.next()));
             }
@@ -819,6 +876,7 @@ impl Cepoch {
                     self.run_obs(op, out, &mut obs);
                 }
                 obs.insert("sched".into(), self.sched_json());
+                self.check_map(op, out);
                 obs.insert("asked".into(), json!(stub.pending_calls.load(Ordering::SeqCst)));
             }
             "jump" => {
@@ -924,6 +982,7 @@ impl Cepoch {
                 self.case.as_ref().unwrap().stub.gate.send_replace(open);
                 self.run_obs(op, out, &mut obs);
                 obs.insert("sched".into(), self.sched_json());
+                self.check_map(op, out);
             }
             "persist" => {
                 // the slow storage finishes writing the next block it was handed
@@ -1076,6 +1135,7 @@ impl Cepoch {
                 }
                 self.run_obs(op, out, &mut obs);
                 obs.insert("sched".into(), self.sched_json());
+                self.check_map(op, out);
                 obs.insert("asked".into(), json!(stub.pending_calls.load(Ordering::SeqCst)));
             }
             "peer" => {
@@ -1242,7 +1302,7 @@ impl G<'_> {
         let ns: Vec<u64> = ns.into_iter().collect();
         for n in &ns {
             for e in 0..=k {
-                if few && self.rng.gen_bool(0.6) {
+                if self.rng.gen_bool(if few { 0.85 } else { 0.4 }) {
                     continue;
                 }
                 self.ops.push(json!({"op": "verify", "n": n, "e": e}));
@@ -1454,13 +1514,13 @@ impl G<'_> {
         }
     }
 
-    /// Directed scenario F12: restart exactly at the boundary (last block of epoch 0 persisted, epoch 1 has voted,
+    /// Directed scenario F13: restart exactly at the boundary (last block of epoch 0 persisted, epoch 1 has voted,
     /// its first block is not persisted) with a slow `get_pending_validator_schedule`: the executor's first epoch
     /// is 0 again.
-    fn case_f12(&mut self) {
+    fn case_f13(&mut self) {
         let first = 0u64;
         let t = (vec![0u64, 3, 6], vec![0u64, 1, 2], vec![0u64, 1, 4]);
-        self.boot("run", first, &t, json!({"f12": true}));
+        self.boot("run", first, &t, json!({"f13": true}));
         self.ops.push(json!({"op": "spawn", "e": 0}));
         let p = self.produce(0, 0, 0, 1, 0);
         self.ops.push(json!({"op": "tick"}));
@@ -1485,13 +1545,13 @@ impl Prop for Cepoch {
         let mut rng = opts.rng();
         let mut g = G { rng: &mut rng, ops: vec![], pay: 0 };
         // budget: n is the approximate number of ops
-        g.case_f12();
+        g.case_f13();
         let mut i = 0u32;
         while g.ops.len() < opts.n {
-            match i % 5 {
-                0 | 3 => g.case_mgr(),
+            match i % 4 {
+                0 => g.case_mgr(),
                 1 => g.case_rep(),
-                _ => g.case_run(i / 5 + (i % 5 == 4) as u32 + 2 * (i % 2)),
+                _ => g.case_run(i / 4 * 2 + (i % 4 == 3) as u32),
             }
             i += 1;
         }
